@@ -11,7 +11,7 @@ import vlib
 VRF = ["-vrf", "-epoch", "6", "-validators", "4"]
 
 
-def run_scenarios(ctx, seeds, blocks, extra=(), vh=None, env=None):
+def run_scenarios(ctx, seeds, blocks, extra=(), vh=None, env=None, halt_ok=False):
     """Runs `vh cons-run` for every seed (in parallel).  Returns (trace_lines, summaries)."""
     def one(seed):
         d = ctx.path("cons-%d" % seed)
@@ -35,6 +35,11 @@ def run_scenarios(ctx, seeds, blocks, extra=(), vh=None, env=None):
     for s in sums:
         if s.get("error"):
             ctx.notes.append("seed %d stopped early: %s" % (s["seed"], s["error"]))
+            # a chain that halts is C10's verdict (its check passes halt_ok); for every other property the rest of the scenario was
+            # never executed, which is an exploration failure (exit 2), not a pass
+            if not halt_ok:
+                raise vlib.Infra("scenario seed %d %s stopped after %d blocks: %s (panics: %s)" % (
+                    s["seed"], " ".join(extra), s.get("blocks", 0), s["error"], str(s.get("panics"))[:300]))
     return lines, sums
 
 
